@@ -46,6 +46,7 @@ func runC11(c *runCtx) {
 		"WITH c AS (SELECT a FROM t WHERE a IN (SELECT CASE WHEN b THEN 1 ELSE 2 END FROM u JOIN v ON u.i = v.i)) SELECT * FROM c UNION SELECT 1 FROM w",
 		strings.Repeat("SELECT a FROM t WHERE a = 1; ", 40),
 		"SELECT a FROM t WHERE MATCH(a) AGAINST ('x') AND b BETWEEN (SELECT 1) AND (SELECT 2)",
+		"SELECT a FROM t LIMIT 5, 10", ";", "SELECT 1;; SELECT 2", "; SELECT 1", "SELECT 1 ;", "SELECT `a` FROM `t` LIMIT 1, 2",
 	)
 	g := newSQLGen(c.rng.Fork())
 	for i := 0; i < c.n(60, 1500); i++ {
@@ -143,6 +144,26 @@ func runC11(c *runCtx) {
 		}
 		if terr != nil {
 			continue
+		}
+		// a context that never fires = the context-free call, whatever the parser's configuration
+		for oi, opts := range [][]parser.ParserOption{nil, {parser.WithStrictMode()}, {parser.WithDialect("mysql")}, {parser.WithStrictMode(), parser.WithDialect("mysql")}, {parser.WithDialect("postgresql")}} {
+			pa, pb := parser.NewParser(opts...), parser.NewParser(opts...)
+			ta, ea := pa.ParseFromModelTokens(toks)
+			tb, eb := pb.ParseContextFromModelTokens(&pollCtx{Context: context.Background(), k: -1}, toks)
+			da, db := "", ""
+			if ta != nil {
+				da = dumpNode(ta)
+				ast.ReleaseAST(ta)
+			}
+			if tb != nil {
+				db = dumpNode(tb)
+				ast.ReleaseAST(tb)
+			}
+			res.count(fmt.Sprintf("cfg|%s|%d", sql, oi), true)
+			if da != db || errCode(ea) != errCode(eb) {
+				res.fail("never-fires-differs:configured-parser", "with a parser configured by options, a context that never fires does not reproduce the context-free result",
+					map[string]any{"sql": sql, "options": oi}, map[string]any{"ctx": errCode(eb), "plain": errCode(ea)})
+			}
 		}
 		p := parser.NewParser()
 		pref := &pollCtx{Context: context.Background(), k: -1}
